@@ -38,6 +38,15 @@ pub fn writers(thorough: bool) -> Report {
             }
         }
     }
+    // tee with targets that accept only part of a buffer per write call (pipes, sockets): each target still gets every byte exactly once
+    struct Partial { max: usize, got: Vec<u8> }
+    impl Write for Partial { fn write(&mut self, b: &[u8]) -> std::io::Result<usize> { let n = b.len().min(self.max); self.got.extend_from_slice(&b[..n]); Ok(n) } fn flush(&mut self) -> std::io::Result<()> { Ok(()) } }
+    for (ma, mb) in [(usize::MAX, 3usize), (2, usize::MAX), (1, 1), (4, 2)] { for input in [&b"foo bar baz"[..], b"l1\nl2\nl3\n", b"x"] {
+        r.evaluations += 1; r.nontrivial += 1;
+        let mut a = Partial { max: ma, got: vec![] }; let mut b = Partial { max: mb, got: vec![] };
+        { let mut t = tee(&mut a, &mut b); t.write_all(input).unwrap(); t.flush().unwrap(); }
+        if a.got != input || b.got != input { r.violation("tee_write", "TeeWrite did not give both targets the full input exactly once (targets accepting at most a/b bytes per write call)", format!("{:?} with per-call limits ({ma}, {mb})", String::from_utf8_lossy(input)), "both == input".into(), format!("{:?} / {:?}", String::from_utf8_lossy(&a.got), String::from_utf8_lossy(&b.got))); }
+    } }
     r.samples.push("input \"x\\nx\" chunked x | \\nx -> \"[x\\n][x]\"".into());
     r
 }
